@@ -34,6 +34,14 @@ def dedupL : List α → List α
   | [] => []
   | x :: xs => let r := dedupL xs; if r.contains x then r else x :: r
 
+/-- the given faces in canonical (listing) order: what decoding the new boundary-matrix column yields -/
+def canonFaces (c : Cx α) (k : Nat) (fs : List α) : List α :=
+  ((c.ofOrder (k - 1)).map (·.name)).filter (fun n => fs.contains n)
+
+/-- the points of the given faces in canonical (listing) order: what decoding the new basis-matrix column yields -/
+def canonBasis (c : Cx α) (fs : List α) : List α :=
+  ((c.ofOrder 0).map (·.name)).filter (fun p => fs.any (fun f => (c.basisOf f).contains p))
+
 /-- insert after the last simplex of order ≤ s.order (append to that order's listing) -/
 def insertSorted (s : Simp α) : List (Simp α) → List (Simp α)
   | [] => [s]
@@ -55,7 +63,6 @@ def Cx.addSimplex (c : Cx α) (fs : List α) (id : α) : Except Err (Cx α) :=
     if fs.any (fun f => !c.contains f) then .error .key else
     if fs.any (fun f => c.orderOf? f != some (k-1)) then .error .value else
     if (c.ofOrder k).any (fun s => setEqB s.faces fs) then .error .key else
-    let bs := dedupL (fs.flatMap c.basisOf)
-    .ok { c with simps := insertSorted ⟨id, k, fs, bs⟩ c.simps }
+    .ok { c with simps := insertSorted ⟨id, k, canonFaces c k fs, canonBasis c fs⟩ c.simps }
 
 end Flat
